@@ -66,3 +66,52 @@
 (declare-const wftime Bool)
 (declare-const gsec (_ BitVec 64))
 (declare-const gnanos (_ BitVec 32))
+
+; ---- JSON string escaping (C15), written from RFC 8259 section 7 --------------
+; The outputter's choice of representation for one source byte c: the two-character
+; escapes for quotation mark, reverse solidus, line feed, carriage return and tab;
+; \u00XX (lower-case hex) for the other control characters; the byte itself otherwise.
+(define-fun esclen ((c (_ BitVec 8))) (_ BitVec 64)
+  (ite (or (= c #x22) (= c #x5c) (= c #x0a) (= c #x0d) (= c #x09)) #x0000000000000002
+  (ite (bvult c #x20) #x0000000000000006 #x0000000000000001)))
+(define-fun hexdig ((n (_ BitVec 8))) (_ BitVec 8)
+  (ite (bvult n #x0a) (bvadd n #x30) (bvadd n #x57)))
+(define-fun escbyte ((c (_ BitVec 8)) (j (_ BitVec 64))) (_ BitVec 8)
+  (ite (= (esclen c) #x0000000000000001) c
+  (ite (= (esclen c) #x0000000000000002)
+       (ite (= j #x0000000000000000) #x5c
+            (ite (= c #x0a) #x6e (ite (= c #x0d) #x72 (ite (= c #x09) #x74 c))))
+       (ite (= j #x0000000000000000) #x5c
+       (ite (= j #x0000000000000001) #x75
+       (ite (= j #x0000000000000002) #x30
+       (ite (= j #x0000000000000003) #x30
+       (ite (= j #x0000000000000004) (hexdig (bvlshr c #x04))
+            (hexdig (bvand c #x0f))))))))))
+; The reader's side of RFC 8259 section 7, stated independently: junit_ok(n, b0..b5) holds
+; when the n bytes b0.. form one legal unit of a JSON string body (an unescaped character
+; byte other than quotation mark, reverse solidus and the control characters; a
+; two-character escape; or a \uXXXX escape), and junit_val is the code unit it denotes.
+(define-fun hexval ((b (_ BitVec 8))) (_ BitVec 16)
+  (ite (and (bvuge b #x30) (bvule b #x39)) ((_ zero_extend 8) (bvsub b #x30))
+  (ite (and (bvuge b #x61) (bvule b #x66)) ((_ zero_extend 8) (bvsub b #x57))
+  (ite (and (bvuge b #x41) (bvule b #x46)) ((_ zero_extend 8) (bvsub b #x37)) #xffff))))
+(define-fun junit_ok ((n (_ BitVec 64)) (b0 (_ BitVec 8)) (b1 (_ BitVec 8)) (b2 (_ BitVec 8)) (b3 (_ BitVec 8)) (b4 (_ BitVec 8)) (b5 (_ BitVec 8))) Bool
+  (or (and (= n #x0000000000000001) (bvuge b0 #x20) (not (= b0 #x22)) (not (= b0 #x5c)))
+      (and (= n #x0000000000000002) (= b0 #x5c)
+           (or (= b1 #x22) (= b1 #x5c) (= b1 #x2f) (= b1 #x62) (= b1 #x66) (= b1 #x6e) (= b1 #x72) (= b1 #x74)))
+      (and (= n #x0000000000000006) (= b0 #x5c) (= b1 #x75)
+           (not (= (hexval b2) #xffff)) (not (= (hexval b3) #xffff)) (not (= (hexval b4) #xffff)) (not (= (hexval b5) #xffff)))))
+(define-fun junit_val ((n (_ BitVec 64)) (b0 (_ BitVec 8)) (b1 (_ BitVec 8)) (b2 (_ BitVec 8)) (b3 (_ BitVec 8)) (b4 (_ BitVec 8)) (b5 (_ BitVec 8))) (_ BitVec 16)
+  (ite (= n #x0000000000000001) ((_ zero_extend 8) b0)
+  (ite (= n #x0000000000000002)
+       (ite (= b1 #x62) #x0008 (ite (= b1 #x66) #x000c (ite (= b1 #x6e) #x000a (ite (= b1 #x72) #x000d (ite (= b1 #x74) #x0009 ((_ zero_extend 8) b1))))))
+       (bvor (bvshl (hexval b2) #x000c) (bvshl (hexval b3) #x0008) (bvshl (hexval b4) #x0004) (hexval b5)))))
+; Ghost offsets for "the output is the concatenation of the units of the source bytes":
+; eoff(i) is the offset of source byte i's unit, defined by its recurrence under wfesc
+; (a definitional assumption, satisfiable by wfesc = false).
+(declare-const wfesc Bool)
+(declare-fun eoff ((_ BitVec 64)) (_ BitVec 64))
+(declare-fun esrc ((_ BitVec 64)) (_ BitVec 64))
+(declare-fun eidx ((_ BitVec 64)) (_ BitVec 64))
+; length of the decimal / float text strconv produces for a value: between 1 and 32 bytes, otherwise uninterpreted
+(declare-fun numlen ((_ BitVec 64) (_ BitVec 64)) (_ BitVec 64))
